@@ -366,6 +366,36 @@ def block_groups(case, b):
     return g
 
 
+def aliased_groups(log):
+    """recorded defect updated-value-aliased (accruals): indices of the log items of every dispatch in which some
+    update event's value list already shows the step of a LATER hit of the same dispatch (the event carries the live
+    list, so a later hit is visible in an earlier update).  On such a dispatch the value argument of the update
+    events is not compared with the model."""
+    res = set()
+    start = 0
+    for end, it in enumerate(log):
+        if it[0] != "snap":
+            continue
+        seg = range(start, end)
+        found = False
+        for j in seg:
+            if log[j][2] != "updated":
+                continue
+            v = dict(log[j][3]).get("value")
+            if not isinstance(v, list):
+                continue
+            own = j + 1 if j + 1 < end and log[j + 1][2] == "hit" else -1    # the hit this update was posted with
+            for i in range(j + 1, end):
+                if log[i][2] == "hit" and i != own:
+                    k = dict(log[i][3]).get("step")
+                    if isinstance(k, int) and not isinstance(k, bool) and 0 <= k < len(v) and v[k] is True:
+                        found = True
+        if found:
+            res.update(seg)
+        start = end + 1
+    return res
+
+
 def coq_case(case, out):
     if "logs" not in out:
         return None
@@ -374,12 +404,9 @@ def coq_case(case, out):
         groups = block_groups(case, b)
         ins.append("(%s, %s)" % (coq_cfg(c), coqlist("(%s, %s)" % (zlit(t), coqlist(coq_op(o) for o in mops))
                                                        for t, mops in groups)))
-        terms, gi = [], 0
-        for it in out["logs"][b]:
-            shared = c["kind"] == "accrual" and gi < len(groups) and len(groups[gi][1]) >= 2
-            terms.append(coq_obs(c, it, shared))
-            if it[0] == "snap":
-                gi += 1
+        log = out["logs"][b]
+        lenient = aliased_groups(log) if c["kind"] == "accrual" else set()
+        terms = [coq_obs(c, it, j in lenient) for j, it in enumerate(log)]
         exps.append(coqlist(terms))
     return "(%s, %s)" % (coqlist(ins), coqlist(exps))
 
@@ -438,7 +465,7 @@ def oracle_block(c, groups, log):
     for (t, mops), (evs, sn) in zip(groups, segs):
         if any(it[1] < 0 for it in evs) or sn[1] != t:
             fail("time-off-grid", "an event was observed at a non-integral millisecond")
-        exp_hits, exp_complete = [], 0
+        exp_hits, exp_complete, exp_vals = [], 0, []
         for it in evs:
             if it[2] == "timeout":
                 do_reset()
@@ -459,6 +486,7 @@ def oracle_block(c, groups, log):
                     nacc += 1
                     last_accept = t
                     exp_hits.append(base + hv * nacc)
+                    exp_vals.append(base + hv * nacc)
                     goal_now = reached(base + hv * nacc)
             elif o[0] in ("Add", "Sub", "Jump") and kind == "counter":
                 if o[0] == "Add":
@@ -473,11 +501,13 @@ def oracle_block(c, groups, log):
                     if not steps[o[1]]:
                         steps[o[1]] = True
                         exp_hits.append(o[1])
+                        exp_vals.append(list(steps))
                     goal_now = all(steps)
             elif o[0] == "Hit" and kind == "sequence":
                 if enabled and o[1] == pos:
                     pos += 1
                     exp_hits.append(pos)
+                    exp_vals.append(pos)
                     goal_now = pos >= n
             if goal_now and not completed:
                 exp_complete += 1
@@ -493,6 +523,24 @@ def oracle_block(c, groups, log):
         key = "count" if kind == "counter" else "step"
         if [h.get(key) for h in hits] != exp_hits or (kind == "counter" and legacy != hits):
             fail("hit-events", "hit events %r posted at t=%d, the accepted hits are %r" % (hits, t, exp_hits))
+        else:
+            # the update event posted together with each hit event carries the value at that moment
+            upd_vals = []
+            for j, it in enumerate(evs):
+                if it[2] == "hit":
+                    i = j - 1
+                    while i >= 0 and evs[i][2] == "legacyhit":
+                        i -= 1
+                    upd_vals.append(dict(evs[i][3]).get("value") if i >= 0 and evs[i][2] == "updated" else None)
+            for j, (got, want) in enumerate(zip(upd_vals, exp_vals)):
+                if got != want:
+                    if kind == "accrual" and j + 1 < len(exp_vals) and got == exp_vals[-1]:
+                        fail("updated-value-aliased", "logicblock_<accrual>_updated posted for step %r at t=%d shows "
+                             "%r: a later hit of the same dispatch is already visible (live list in the event)"
+                             % (exp_hits[j], t, got))
+                    else:
+                        fail("updated-value", "update event posted with hit %r at t=%d carries value %r, state was %r"
+                             % (exp_hits[j], t, got, want))
         if ncomp != exp_complete:
             fail("complete-events", "%d completion events at t=%d, %d completions reached" % (ncomp, t, exp_complete))
         val = sn[2]
@@ -570,7 +618,7 @@ def describe(case):
 
 SUITES = [
     Suite("blocks", gen_case, run_case, HDR, coq_case, oracle, shrink, nontrivial,
-          {"quick": 240, "thorough": 6000}, shard=40, describe=describe, case_timeout=120),
+          {"quick": 240, "thorough": 4000}, shard=40, describe=describe, case_timeout=120),
 ]
 
 LEVEL_TEXT = ("Machine-checked proof (Coq) over an executable model of Counter/Accrual/Sequence (state: enabled, completed, "
